@@ -441,13 +441,31 @@ def report_disagreements(ctx, name, failing_cases, model, found_keys):
 
 def write_registry_data(gd, entries_coq):
     """RegistryData.v: the model registry rebuilt (inside Coq, by the model's own register) from the
-    registration-order entries dumped from the running build."""
+    registration-order entries dumped from the running build.  The compiled file is cached by content hash
+    (rebuilding the 377-lint registry in vm_compute takes ~20 s)."""
+    text = ("From ZL Require Import Base.Bytes Framework.Core Framework.Registry Framework.Script.\nOpen Scope Z_scope.\n"
+            "Definition entries : list (kind * bytes * bytes) := [\n  " + ";\n  ".join(entries_coq) + "\n].\n"
+            "Definition real_registry : sregistry := Eval vm_compute in reg_of entries.\n")
     p = os.path.join(gd, "RegistryData.v")
     with open(p, "w") as f:
-        f.write("From ZL Require Import Base.Bytes Framework.Core Framework.Registry Framework.Script.\nOpen Scope Z_scope.\n")
-        f.write("Definition entries : list (kind * bytes * bytes) := [\n  " + ";\n  ".join(entries_coq) + "\n].\n")
-        f.write("Definition real_registry : sregistry := Eval vm_compute in reg_of entries.\n")
+        f.write(text)
+    # the cache key covers the data and the compiled library it depends on
+    lib = os.path.join(COQ, "theories", "Framework", "Script.vo")
+    h = hashlib.sha256((text + str(os.path.getmtime(lib)) + str(os.path.getsize(lib))).encode()).hexdigest()[:24]
+    cdir = os.path.join(BUILD, "cache")
+    os.makedirs(cdir, exist_ok=True)
+    cvo = os.path.join(cdir, "RegistryData-%s.vo" % h)
+    if os.path.exists(cvo):
+        import shutil
+        shutil.copy(cvo, os.path.join(gd, "RegistryData.vo"))
+        return p
     ok, out = coqc(p, timeout=900)
     if not ok:
         raise BuildBroken("generated RegistryData.v does not compile: " + out[-2000:])
+    try:
+        import shutil
+        shutil.copy(os.path.join(gd, "RegistryData.vo"), cvo)
+    except OSError:
+        pass
     return p
+
